@@ -92,7 +92,7 @@ def _home_names0(info: dict) -> tuple[set[str], set[str]]:
     return {"fun", "attr", "class", "enum"}, {segs[-1]}
 
 
-def attachment_violations(pkg: dict, res: dict, nc: bool = False) -> tuple[list[dict], dict]:
+def attachment_violations(pkg: dict, res: dict, nc: bool = False, matched_style: bool = False) -> tuple[list[dict], dict]:
     table = (pkg.get("meta") or {}).get("tokens") or {}
     viols: list[dict] = []
     stats = {"token_occurrences": 0, "tokens_seen": 0, "comments": 0}
@@ -121,6 +121,18 @@ def attachment_violations(pkg: dict, res: dict, nc: bool = False) -> tuple[list[
                 kinds, names = _home_names(info, aliases)
                 d = c["decl"]
                 ok = d is not None and d["kind"] in kinds and (d["python_name"] in names or d["name"] in names)
+                if ok and matched_style and info.get("lines") and info["kind"] in ("C", "F") and f"Summary {tok}" in c["text"]:
+                    # "line for line": the whole description, blank lines included, follows its first line in order
+                    got = [re.sub(r"^\s*\* ?", "", cl).rstrip() for cl in c["text"].split("\n")[1:]]
+                    want = [w.rstrip() for w in info["lines"]]
+                    try:
+                        start = next(i for i, g in enumerate(got) if g == want[0])
+                    except StopIteration:
+                        start = None
+                    if start is None or got[start : start + len(want)] != want:
+                        viols.append({"class": "description-not-line-for-line", "detail": {
+                            "path": rel, "line": c["line"], "token": tok, "expected_lines": want, "comment": c["text"][:500],
+                            "fingerprint": {"gkey": "lines"}}})
                 if ok and info["kind"] == "P" and not nc:
                     # the line that carries a parameter's description names that parameter (checked verbatim without -nc)
                     for cl in c["text"].split("\n"):
@@ -187,7 +199,8 @@ def run_case(case: dict, parallel: int = 1) -> dict:
                                       "detail": dict(m, fingerprint={"gkey": m["kind"] + ":" + m["query"].split("(")[0]})})
     st = dict(comp.get("stats") or {})
     if e_run is not None and e_run["outcome"] == "completed":
-        vs, ast = attachment_violations(case["pkg"], e_run, bool(case["options"].get("nc")))
+        vs, ast = attachment_violations(case["pkg"], e_run, bool(case["options"].get("nc")),
+                                        matched_style=case["options"].get("docstyle") == case["pkg"].get("doc_style"))
         for v in vs:
             v["history"] = 1
         verdict["violations"] += vs
